@@ -77,6 +77,7 @@ static std::string stripAnsi(const std::string& s) {
 
 // ---- hook state -------------------------------------------------------------------------------
 struct DrawRec {
+    std::string what;
     int q;
     double p1, r;
 };
@@ -109,7 +110,6 @@ static std::string ampsJson(const std::vector<std::complex<double>>& st) {
 
 static double drawHook(const QasmSimulator* sim, const char* what, int q, double p1, double produced) {
     (void)sim;
-    (void)what;
     (void)produced;
     double pred1 = std::nextafter(1.0, 0.0);
     double r;
@@ -120,7 +120,7 @@ static double drawHook(const QasmSimulator* sim, const char* what, int q, double
         r = want ? 0.0 : pred1;
     }
     g_drawIdx++;
-    g_draws.push_back({q, p1, r});
+    g_draws.push_back({what, q, p1, r});
     return r;
 }
 
@@ -369,7 +369,7 @@ static void jobRun(const vutil::Job& j) {
             rec += ",\"polls\":" + std::to_string(bloch::verif::pollIndex);
             rec += ",\"draws\":[";
             for (size_t i = 0; i < g_draws.size(); ++i)
-                rec += std::string(i ? "," : "") + "[" + std::to_string(g_draws[i].q) + "," + jnum(g_draws[i].p1) + "," +
+                rec += std::string(i ? "," : "") + "[" + jstr(g_draws[i].what) + "," + std::to_string(g_draws[i].q) + "," + jnum(g_draws[i].p1) + "," +
                        jnum(g_draws[i].r) + "]";
             rec += "]";
             rec += ",\"script_len\":" + std::to_string(g_thrMode ? g_thr.size() : g_script.size());
